@@ -27,6 +27,11 @@
 #define HDRLEN	(MF_CAP + 64)
 
 static SF_PRIVATE g_w, g_r ;
+#ifdef WITH_META
+static SF_CUES g_cues ;
+static SF_INSTRUMENT g_inst ;
+static int nd_cue [12], nd_ins [8] ;
+#endif
 static unsigned char g_hw [HDRLEN], g_hr [HDRLEN] ;
 
 int
@@ -73,6 +78,45 @@ main (void)
 	VASSERT (w->blockwidth == (sf_count_t) w->bytewidth * CH, "blockwidth = bytewidth * channels") ;
 	VASSERT (validate_sfinfo (&w->sf) && validate_psf (w), "write handle passes psf_open_file's gate") ;
 
+#ifdef WITH_META
+	/* C12: metadata set right after open, before any audio (cue points and instrument/loop data with symbolic fields) */
+	{	int mk ;
+		ND_FILL (nd_cue, 12, int) ;
+		memset (&g_cues, 0, sizeof (g_cues)) ;
+		g_cues.cue_count = 2 ;
+		for (mk = 0 ; mk < 2 ; mk++)
+		{	g_cues.cue_points [mk].indx = nd_cue [6 * mk] ;
+			g_cues.cue_points [mk].position = (uint32_t) nd_cue [6 * mk + 1] ;
+			g_cues.cue_points [mk].fcc_chunk = nd_cue [6 * mk + 2] ;
+			g_cues.cue_points [mk].chunk_start = nd_cue [6 * mk + 3] ;
+			g_cues.cue_points [mk].block_start = nd_cue [6 * mk + 4] ;
+			g_cues.cue_points [mk].sample_offset = (uint32_t) nd_cue [6 * mk + 5] ;
+			} ;
+#if WITH_META & 1
+		rc = sf_command ((SNDFILE *) w, SFC_SET_CUE, &g_cues, sizeof (g_cues)) ;
+		VASSERT (rc == SF_TRUE, "cue points accepted before any audio is written") ;
+#endif
+		ND_FILL (nd_ins, 8, int) ;
+		memset (&g_inst, 0, sizeof (g_inst)) ;
+		g_inst.gain = nd_ins [0] ;
+		g_inst.basenote = (char) (nd_ins [1] & 0x7F) ;
+		g_inst.detune = 0 ;
+		g_inst.velocity_lo = 0 ; g_inst.velocity_hi = 127 ; g_inst.key_lo = 0 ; g_inst.key_hi = 127 ;
+		g_inst.loop_count = 1 ;
+		g_inst.loops [0].mode = SF_LOOP_FORWARD ;
+		g_inst.loops [0].start = (uint32_t) nd_ins [2] ;
+		g_inst.loops [0].end = (uint32_t) nd_ins [3] ;
+		g_inst.loops [0].count = (uint32_t) nd_ins [4] ;
+		VASSUME (g_inst.loops [0].end > 0) ;
+#if WITH_META & 2
+		rc = sf_command ((SNDFILE *) w, SFC_SET_INSTRUMENT, &g_inst, sizeof (g_inst)) ;
+		VASSERT (rc == SF_TRUE, "instrument accepted before any audio is written") ;
+#endif
+		/* what the first write call does: (re)write the header, now with the metadata */
+		rc = w->write_header (w, SF_FALSE) ;
+		VASSERT (rc == 0 && w->dataoffset <= MF_CAP, "header with metadata written") ;
+	}
+#endif
 	/* ---- "the write calls accepted N frames": the state the wrappers + a sample-granular codec leave behind */
 	w->read_current = 0 ;
 	w->have_written = nd_n > 0 ? SF_TRUE : SF_FALSE ;
@@ -122,6 +166,28 @@ main (void)
 #endif
 	VASSERT (r->dataoffset == w->dataoffset, "reader finds the audio data where the writer put it") ;
 	VASSERT (r->read_short != NULL && r->read_int != NULL && r->read_float != NULL && r->read_double != NULL, "reader installs all four read entry points") ;
+#ifdef WITH_META
+	{	int mk ;
+#if WITH_META & 1
+		VASSERT (r->cues != NULL && r->cues->cue_count == 2, "cue points survive: count") ;
+		for (mk = 0 ; mk < 2 ; mk++)
+		{	VASSERT (r->cues->cue_points [mk].indx == g_cues.cue_points [mk].indx, "cue survives: indx") ;
+			VASSERT (r->cues->cue_points [mk].position == g_cues.cue_points [mk].position, "cue survives: position") ;
+			VASSERT (r->cues->cue_points [mk].fcc_chunk == g_cues.cue_points [mk].fcc_chunk, "cue survives: fcc_chunk") ;
+			VASSERT (r->cues->cue_points [mk].chunk_start == g_cues.cue_points [mk].chunk_start, "cue survives: chunk_start") ;
+			VASSERT (r->cues->cue_points [mk].block_start == g_cues.cue_points [mk].block_start, "cue survives: block_start") ;
+			VASSERT (r->cues->cue_points [mk].sample_offset == g_cues.cue_points [mk].sample_offset, "cue survives: sample_offset") ;
+			} ;
+#endif
+#if WITH_META & 2
+		VASSERT (r->instrument != NULL, "instrument survives") ;
+		VASSERT (r->instrument->basenote == g_inst.basenote, "instrument survives: basenote") ;	/* (the WAV smpl chunk has no gain field) */
+		VASSERT (r->instrument->loop_count == 1, "instrument survives: loop count") ;
+		VASSERT (r->instrument->loops [0].start == g_inst.loops [0].start && r->instrument->loops [0].count == g_inst.loops [0].count, "loop survives: start, count") ;
+#endif
+		(void) mk ;
+	}
+#endif
 	WITNESS_END () ;
 	return 0 ;
 }
